@@ -3,6 +3,8 @@ package main
 // SMT term DAG with constant folding. Sorts: W>0 bit-vector of width W, W==0 Bool, W==-1 Int.
 
 import (
+	"strconv"
+	"sync"
 	"sync/atomic"
 	"fmt"
 	"math/big"
@@ -17,14 +19,48 @@ type Term struct {
 	Args []*Term
 	P    []int // parameters (extract hi lo, extend amount)
 	id   int
+	sh   uint64 // structural hash (lazy)
 }
 
 var termCounter64 int64
 
 func nextID() int { return int(atomic.AddInt64(&termCounter64, 1)) }
 
-func mk(op string, w int, args ...*Term) *Term {
-	return &Term{Op: op, W: w, Args: args, id: nextID()}
+// hash-consing (optimisation only): structurally equal terms become pointer-equal, so that more
+// comparisons fold to constants before they reach the solver.
+type consShard struct {
+	mu sync.Mutex
+	m  map[string]*Term
+}
+
+var consTable [64]consShard
+
+func consKey(op string, w int, p []int, args []*Term) (string, uint32) {
+	var sb strings.Builder
+	sb.WriteString(op)
+	sb.WriteByte('|')
+	sb.WriteString(strconv.Itoa(w))
+	for _, x := range p {
+		sb.WriteByte(':')
+		sb.WriteString(strconv.Itoa(x))
+	}
+	h := uint32(2166136261)
+	for _, a := range args {
+		sb.WriteByte(',')
+		sb.WriteString(strconv.Itoa(a.id))
+		h = (h ^ uint32(a.id)) * 16777619
+	}
+	return sb.String(), h
+}
+
+func mkP(op string, w int, p []int, args ...*Term) *Term {
+	return &Term{Op: op, W: w, Args: args, P: p, id: nextID()}
+}
+
+func mk(op string, w int, args ...*Term) *Term { return mkP(op, w, nil, args...) }
+
+func consConst(w int, v *big.Int) *Term {
+	return &Term{Op: "const", W: w, Val: v, id: nextID()}
 }
 
 func (t *Term) IsConst() bool { return t.Op == "const" }
@@ -36,12 +72,12 @@ func mask(w int) *big.Int {
 
 func BVConst(w int, v *big.Int) *Term {
 	x := new(big.Int).And(v, mask(w))
-	return &Term{Op: "const", W: w, Val: x, id: nextID()}
+	return consConst(w, x)
 }
 func BVConstU(w int, v uint64) *Term { return BVConst(w, new(big.Int).SetUint64(v)) }
 func BVConstI(w int, v int64) *Term  { return BVConst(w, big.NewInt(v)) }
 func IntConst(v *big.Int) *Term {
-	return &Term{Op: "const", W: -1, Val: new(big.Int).Set(v), id: nextID()}
+	return consConst(-1, new(big.Int).Set(v))
 }
 
 var tTrue = &Term{Op: "const", W: 0, Val: big.NewInt(1), id: -1}
@@ -280,9 +316,7 @@ func Extract(hi, lo int, a *Term) *Term {
 	if a.IsConst() {
 		return BVConst(hi-lo+1, new(big.Int).Rsh(a.Val, uint(lo)))
 	}
-	t := mk("extract", hi-lo+1, a)
-	t.P = []int{hi, lo}
-	return t
+	return mkP("extract", hi-lo+1, []int{hi, lo}, a)
 }
 func ZeroExt(n int, a *Term) *Term {
 	if n == 0 {
@@ -291,9 +325,7 @@ func ZeroExt(n int, a *Term) *Term {
 	if a.IsConst() {
 		return BVConst(a.W+n, a.Val)
 	}
-	t := mk("zero_extend", a.W+n, a)
-	t.P = []int{n}
-	return t
+	return mkP("zero_extend", a.W+n, []int{n}, a)
 }
 func SignExt(n int, a *Term) *Term {
 	if n == 0 {
@@ -302,9 +334,7 @@ func SignExt(n int, a *Term) *Term {
 	if a.IsConst() {
 		return BVConst(a.W+n, signed(a.W, a.Val))
 	}
-	t := mk("sign_extend", a.W+n, a)
-	t.P = []int{n}
-	return t
+	return mkP("sign_extend", a.W+n, []int{n}, a)
 }
 func Concat(a, b *Term) *Term {
 	if a.IsConst() && b.IsConst() {
